@@ -55,6 +55,7 @@ EnvStep(a) ==
       [] a.op = "foreign" -> EmitForeign(a.e) /\ UNCHANGED wvars
       [] a.op = "reorg"   -> Reorg(a.b) /\ UNCHANGED wvars
       [] a.op = "height"  -> SetHeight(a.h) /\ UNCHANGED wvars
+      [] a.op = "lagheight" -> ReportHeight(a.h) /\ UNCHANGED wvars
       [] a.op = "tok"     -> SetTok(a.id, a.shape) /\ UNCHANGED wvars
       [] a.op = "req"     -> R_Req(a.tx) /\ UNCHANGED cvars
       [] OTHER            -> UNCHANGED <<cvars, wvars>>        \* failnext: takes effect in a later answer
